@@ -22,9 +22,11 @@ def order_args(t):
     for x in walk(t):
         if x[0] == "call" and callee(x) in ("numpy.ravel", ".ravel", ".flatten", "numpy.reshape", ".reshape", "numpy.asarray", "numpy.array"):
             o = kw(x, "order")
-            if o is not None and o not in (const("C"), const("K"), const("A")) or (o is not None and o in (const("F"),)):
+            if o is not None and o != const("C"):
+                bad.append(show(x)[:60])       # 'F' always differs; 'K'/'A' follow the memory layout, which differs for non-C-contiguous inputs
+            if callee(x) in (".ravel", ".flatten") and x[2] and x[2][0] != const("C"):
                 bad.append(show(x)[:60])
-            if callee(x) in (".ravel", ".flatten") and x[2] and x[2][0] == const("F"):
+            if callee(x) == "numpy.ravel" and len(x[2]) > 1 and x[2][1] != const("C"):
                 bad.append(show(x)[:60])
     return bad
 
